@@ -152,6 +152,11 @@ def classify_dead(workdir, i):
         frames = [l for l in seg.splitlines() if l.startswith("\t/") or l.startswith("\t")]
         files = [l.strip().split(":")[0] for l in frames]
         files = [f for f in files if "/go1.26.8/" not in f and "/opt/veriftools/" not in f]
+        if "found pointer to free object" in seg or "found bad pointer in Go heap" in seg:
+            # the garbage collector's own consistency check (about one process in
+            # some thousands with this toolchain, DESIGN section 10): the stack is
+            # that of whoever happened to be allocating, not of a culprit
+            return "runtime", seg
         if files and files[0].startswith(REPO + "/") and "zz_verif_" not in files[0]:
             return "sut-panic", seg
         if "found pointer to free object" in txt or "fatal error:" in txt and "sync:" not in txt and not files:
